@@ -942,6 +942,15 @@ class Interp:
         m = n["m"]
         recv = self.ev(env, n["recv"])
         # closures as arguments (map_or etc.) are evaluated lazily below
+        if isinstance(recv, Opt) and m in ("filter", "and_then", "is_some_and"):
+            cl = self.ev(env, n["args"][0])
+            if recv.val is None: return Opt(FALSE, None) if m != "is_some_and" else FALSE
+            sub = env.fork(And(env.pc, recv.some))
+            r = self.call_closure(sub, cl, [recv.val])
+            if m == "filter": return Opt(And(recv.some, r), recv.val)
+            if m == "is_some_and": return And(recv.some, r)
+            if not isinstance(r, Opt): raise Unsupported("and_then closure does not return an Option")
+            return Opt(And(recv.some, r.some), r.val)
         if isinstance(recv, Opt) and m in ("map_or", "map", "is_some", "is_none", "unwrap", "expect", "unwrap_or", "as_ref", "copied", "cloned"):
             if m in ("as_ref", "copied", "cloned"): return recv
             if m == "is_some": return recv.some
